@@ -135,7 +135,7 @@ def main():
         names.setdefault(n, (v, 'supplement: ' + src))
     # keep only names shaped like registry constants
     keep = re.compile(r'^(EM|ET|EV|ELF(CLASS|DATA|OSABI|COMPRESS)\w*|EI|SHT|SHF|SHN|PT|PF|DT|DF|DF_1|DTF|STB|STT|STV|NT|R|EF|'
-                      r'VER|GNU_PROPERTY|GRP|RHF|SYMINFO|DW_\w+|ODK|STO|E_\w+|AT)_\w+$')
+                      r'VER|GNU_PROPERTY|GRP|RHF|SYMINFO|DW_\w+|ODK|STO|E_\w+|AT)_\w+$|^ELFCLASS\w+$|^ELFDATA\w+$')
     names = {n: v for n, v in names.items() if keep.match(n)}
     data = {'names': {n: [str(v[0]), v[1]] for n, v in sorted(names.items())},
             'ambiguous': {n: [[str(a[0]), a[1]], [str(b[0]), b[1]]] for n, (a, b) in sorted(ambiguous.items())},
@@ -147,7 +147,7 @@ def main():
     fam = {}
     for pfx in ('SHT', 'PT', 'DT', 'EM', 'ET', 'ELFOSABI', 'STT', 'STB', 'STV', 'SHN', 'ELFCOMPRESS', 'EV', 'ELFCLASS', 'ELFDATA'):
         for n in names:
-            if not n.startswith(pfx + '_'):
+            if not (n.startswith(pfx + '_') or (pfx in ('ELFCLASS', 'ELFDATA') and n.startswith(pfx))):
                 continue
             rest = n[len(pfx) + 1:]
             sub = 'BASE'
@@ -180,6 +180,18 @@ def main():
         f.write(',\n'.join('  %s |-> [%s]' % (p, ', '.join('%s |-> {%s}' % (sub, ', '.join('"%s"' % x for x in sorted(ns)))
                                                               for sub, ns in sorted(subs.items())))
                             for p, subs in sorted(fam.items())))
+        f.write('\n]\n\n')
+        # code -> names, per family, as sequences of <<digits, {names}>> (linear scan beats 4400-field record lookups)
+        f.write('RegByCode == [\n')
+        rows = []
+        for p, subs in sorted(fam.items()):
+            for sub, ns in sorted(subs.items()):
+                bycode = {}
+                for n in ns:
+                    bycode.setdefault(names[n][0], []).append(n)
+                rows.append('  %s_%s |-> <<%s>>' % (p, sub, ', '.join('<<%s, {%s}>>' % (digs(c), ', '.join('"%s"' % x for x in sorted(v)))
+                                                                            for c, v in sorted(bycode.items()))))
+        f.write(',\n'.join(rows))
         f.write('\n]\n\n')
         f.write('RegAmbiguous == {%s}\n' % ', '.join('"%s"' % n for n in sorted(ambiguous)))
         f.write('=============================================================================\n')
